@@ -16,6 +16,7 @@ from pbsym.ctx import B
 from pbsym.models.quiet import num
 
 PROPERTY = 'C05'
+TECHNIQUE = 'CrossHair/z3 symbolic execution with a spy cassette over symbolic programs, fault steps, termination points and sampling rationals; saved recordings replayed on a fresh recorder'
 FUNCTIONS = ['playback/tape_recorder.py::TapeRecorder.start_recording',
              'playback/tape_recorder.py::TapeRecorder.discard_recording',
              'playback/tape_recorder.py::TapeRecorder._reset_active_recording',
